@@ -840,7 +840,8 @@ Fixpoint rh_loop (fuel : nat) (s : list N) (fl : list pflag) (out : dec_hdr)
   | S f =>
     let h := firstn 512 s in
     let s1 := skipn 512 s in
-    if Nat.ltb (length h) 512 then RH_Eof
+    if Nat.eqb (length h) 0 then RH_Eof               (* clean end of the stream *)
+    else if Nat.ltb (length h) 512 then RH_Err         (* partial header record *)
     else if all_zero h then (if prev_zero then RH_Eof else rh_loop f s1 fl out true)
     else
       let r := parse_raw h in
